@@ -156,6 +156,10 @@ pub fn run_scenario(sc: &Value) -> Value {
                 |m: &String| Ok(m.as_bytes().to_vec()),
                 |b: &[u8]| {
                     let s = String::from_utf8(b.to_vec()).map_err(|e| e.to_string())?;
+                    if s.is_empty() {
+                        // the codec encodes the empty command list as zero bytes: an empty datagram is a message
+                        return Ok(s);
+                    }
                     match serde_json::from_str::<Value>(&s) {
                         Ok(Value::Array(_)) => Ok(s),
                         _ => Err("not a command list".to_string()),
